@@ -18,7 +18,7 @@ def run(chk):
     if chk.thorough:
         for k, edges in enumerate(rc.all_graphs(3)):
             cases.append(rc.graph_case(3, edges, rc.PROVIDERS[k % 3], k % 2 == 0))
-    n = 1500 if chk.thorough else 260
+    n = 1500 if chk.thorough else 200
     for i in range(n):
         r = chk.rng.split(i)
         cases.append(rc.gen_case(r, fail="random" if i % 4 == 3 else None))
